@@ -314,12 +314,17 @@ def run_check(check_cls, tier, seed, replay=None):
     check = check_cls(seed, tier)
     prop = check.property_id
     if replay:
+        # the recorded case is re-run in a worker process (same environment as a normal run, e.g. the ASan preload)
         data = json.loads(open(replay).read())
         check.setup()
-        check.worker_setup()
-        res = check.run_case(data['case'])
+        case = data['case']
+        results = Runner(check).run([case])
+        res = results[0][1] if results else {'verdict': 'inconclusive', 'note': 'no result'}
         print(json.dumps(res, indent=1, default=_json_default))
-        return 1 if res.get('verdict') == 'violated' else 0
+        if res.get('verdict') == 'violated':
+            print(f'VIOLATION property={prop} replay={replay}')
+            return 1
+        return 0 if res.get('verdict') == 'held' else 2
     try:
         check.setup()
     except Exception as e:
